@@ -211,6 +211,11 @@ def arith (D : Defects) (op : ArithOp) : Value → Value → Except Err Value
 
 /-! ## Expressions -/
 
+/-- string functions of one argument -/
+inductive StrFn where
+  | upper | lower | length | ltrim | rtrim
+  deriving DecidableEq, Repr, Inhabited
+
 inductive Expr where
   | lit (v : Value)
   | col (i : Nat)
@@ -229,6 +234,10 @@ inductive Expr where
   | caseWhen (parts : List Expr)
   /-- simple CASE `CASE x WHEN v₁ THEN r₁ … ELSE e END`: `parts` = [v₁, r₁, …, vₖ, rₖ, else] -/
   | caseOf (x : Expr) (parts : List Expr)
+  /-- `UPPER(e)`, `LOWER(e)`, `LENGTH(e)`, `LTRIM(e)`, `RTRIM(e)` -/
+  | strFn (f : StrFn) (e : Expr)
+  /-- `a || b` -/
+  | concat (a b : Expr)
   deriving Repr, Inhabited
 
 /-- A NULL in boolean position is unknown; a non-boolean is a type error -/
@@ -254,6 +263,41 @@ def inShipped (x : Value) (ys : List Value) : Bool :=
   ys.any (fun y => match x, y with
     | .null, .null => true
     | _, _ => cmp3 .eq x y == some true)
+
+/-! ### string functions (texts are byte strings; letters are the ASCII letters) -/
+
+def upperByte (b : Nat) : Nat := if 97 ≤ b && b ≤ 122 then b - 32 else b
+
+def lowerByte (b : Nat) : Nat := if 65 ≤ b && b ≤ 90 then b + 32 else b
+
+/-- LTRIM: without the leading spaces -/
+def ltrimBytes (s : List Nat) : List Nat := s.dropWhile (· == 32)
+
+/-- RTRIM: without the trailing spaces -/
+def rtrimBytes (s : List Nat) : List Nat := (ltrimBytes s.reverse).reverse
+
+/-- LENGTH counts characters: the bytes of a UTF-8 text that are not continuation bytes -/
+def charCount (s : List Nat) : Nat := (s.filter (fun b => b < 128 || 192 ≤ b)).length
+
+def applyStrFn (f : StrFn) (s : List Nat) : Value :=
+  match f with
+  | .upper => .text (s.map upperByte)
+  | .lower => .text (s.map lowerByte)
+  | .length => .int (charCount s)
+  | .ltrim => .text (ltrimBytes s)
+  | .rtrim => .text (rtrimBytes s)
+
+/-- NULL in, NULL out; anything but a text is a type error -/
+def strFn1 (f : StrFn) : Value → Except Err Value
+  | .null => .ok .null
+  | .text s => .ok (applyStrFn f s)
+  | _ => .error .type
+
+/-- `a || b`: NULL if either side is NULL -/
+def concatV : Value → Value → Except Err Value
+  | .text a, .text b => .ok (.text (a ++ b))
+  | .null, .null | .null, .text _ | .text _, .null => .ok .null
+  | _, _ => .error .type
 
 def isNullLit : Expr → Bool
   | .lit .null => true
@@ -339,6 +383,16 @@ def eval (D : Defects) (tys : List Ty) (row : Row) : Expr → Except Err Value
         | .ok none => .ok .null
         | .ok (some m) =>
           if neg && D.notLikeFalse then .ok (.bool false) else .ok (.bool (m != neg))
+  | .strFn f e =>
+    match eval D tys row e with
+    | .error x => .error x
+    | .ok v => strFn1 f v
+  | .concat a b =>
+    match eval D tys row a with
+    | .error x => .error x
+    | .ok va => match eval D tys row b with
+      | .error x => .error x
+      | .ok vb => concatV va vb
   | .isNull neg e =>
     match eval D tys row e with
     | .error x => .error x
@@ -445,6 +499,9 @@ def inferTyO (tys : List Ty) : Expr → Option Ty
     | ta, tb => some (wider (ta.getD .bool) (tb.getD .bool))
   | .caseWhen parts => inferResults tys parts
   | .caseOf _ parts => inferResults tys parts
+  | .strFn .length _ => some .int
+  | .strFn _ _ => some .text
+  | .concat _ _ => some .text
   | _ => some .bool
 
 def inferResults (tys : List Ty) : List Expr → Option Ty
@@ -965,8 +1022,8 @@ mutual
 /-- does the expression contain a comparison (=, <, BETWEEN, IN, simple CASE) across categories? -/
 def illTyped (tys : List Ty) (unk : List Nat) : Expr → Bool
   | .lit _ | .col _ => false
-  | .not e | .neg e | .pos e | .isNull _ e => illTyped tys unk e
-  | .and a b | .or a b | .arith _ a b | .like _ a b => illTyped tys unk a || illTyped tys unk b
+  | .not e | .neg e | .pos e | .isNull _ e | .strFn _ e => illTyped tys unk e
+  | .and a b | .or a b | .arith _ a b | .like _ a b | .concat a b => illTyped tys unk a || illTyped tys unk b
   | .cmp _ a b => catClash tys unk a b || illTyped tys unk a || illTyped tys unk b
   | .between _ e lo hi =>
     catClash tys unk e lo || catClash tys unk e hi || illTyped tys unk e || illTyped tys unk lo || illTyped tys unk hi
